@@ -16,7 +16,7 @@ use uom::si::time::second;
 pub fn def() -> PropDef {
     PropDef {
         id: "C17",
-        rule: "inputs: waveforms of 1..=700 samples = sums of 0..=8 response-shaped pulses (amplitude 1..1e4, start anywhere incl. the last 24 samples) plus noise of magnitude {0, 1e-9, 0.3, 3, 30} x uniform, integer-rounded or not; contiguous wire blocks of every length 1..=256 at generated ring positions (incl. the seam) with differing per-wire lengths and cross-talk; scale factors 2^k, k in -8..=8; oracle: (1) outputs finite, >= 0, one sample per input sample and one channel per input channel; (2) pad deconvolution == naive reference (one sample at a time, no skipping, same offset-outer / look-ahead-inner grid 3..=5 x 7..=12, first strict minimum of the squared residual) bit for bit; (3) deconv(2^k x) == 2^k deconv(x) bit for bit for pads and wire blocks, and on whole events through the public API (every avalanche keeps t, phi, z by bits and both amplitudes scale exactly); (4) an isolated response-shaped wire pulse of amplitude a at sample k <= len - 18 on one wire at each of the 256 ring positions is recovered as a at k (relative 1e-6) and <= 1e-6 a elsewhere; whole events: digitised hit-pattern events scaled by 2, 4, 8 through the public API, and their calibrated signals scaled by 2^-60..2^60 through the event_from_signals hook - same avalanche count, same t / phi / z by bits, amplitudes times the factor exactly; non-trivial = waveforms on which the reference takes both the skip branch and the subtract branch; distinct by waveform hash",
+        rule: "inputs: waveforms of 1..=700 samples = sums of 0..=8 response-shaped pulses (amplitude 1..1e4, start anywhere incl. the last 24 samples) plus noise of magnitude {0, 1e-9, 0.3, 3, 30} x uniform, integer-rounded or not; contiguous wire blocks of every length 1..=256 at generated ring positions (incl. the seam) with differing per-wire lengths and cross-talk, alone and as 2-4 blocks in one event (one case in four with a block ending exactly at wire 255, one in four starting at wire 0); scale factors 2^k, k in -8..=8; oracle: (1) outputs finite, >= 0, one sample per input sample and one channel per input channel; (2) pad deconvolution == naive reference (one sample at a time, no skipping, same offset-outer / look-ahead-inner grid 3..=5 x 7..=12, first strict minimum of the squared residual) bit for bit; (3) deconv(2^k x) == 2^k deconv(x) bit for bit for pads and wire blocks, and on whole events through the public API (every avalanche keeps t, phi, z by bits and both amplitudes scale exactly); (4) an isolated response-shaped wire pulse of amplitude a at sample k <= len - 18 on one wire at each of the 256 ring positions is recovered as a at k (relative 1e-6) and <= 1e-6 a elsewhere; whole events: digitised hit-pattern events scaled by 2, 4, 8 through the public API, and their calibrated signals scaled by 2^-60..2^60 through the event_from_signals hook - same avalanche count, same t / phi / z by bits, amplitudes times the factor exactly; non-trivial = waveforms on which the reference takes both the skip branch and the subtract branch; distinct by waveform hash",
         assumptions: &[
             "pad_deconvolution / wire_deconvolution are reached through alpha_g_physics::verif_hooks; the response functions are the harness's own re-binning of the shipped JSON files",
             "bit-exactness of the reference relies on performing the same floating-point operations in the same order, which is what 'equals its plain definition' means operationally",
@@ -186,9 +186,25 @@ pub struct BlockCase {
     /// only); 2: no pulse and a constant positive pedestal (no negative sample)
     #[serde(default)]
     pub quiet: u8,
+    /// further blocks of the same event (start, length); wires already taken are skipped
+    #[serde(default)]
+    pub others: Vec<(u16, u16)>,
 }
 
 fn block_signals(c: &BlockCase) -> Vec<(usize, Vec<f64>)> {
+    let mut sig = one_block_signals(c);
+    for (k, &(start, len)) in c.others.iter().enumerate() {
+        let extra = one_block_signals(&BlockCase { start, len, seed: mix(c.seed, 0x0B10C + k as u64), others: vec![], ..c.clone() });
+        for (w, s) in extra {
+            if !sig.iter().any(|x| x.0 == w) {
+                sig.push((w, s));
+            }
+        }
+    }
+    sig
+}
+
+fn one_block_signals(c: &BlockCase) -> Vec<(usize, Vec<f64>)> {
     let resp = wire_response();
     let len = c.len.clamp(1, 256) as usize;
     let bins = c.bins.max(30) as usize;
@@ -248,7 +264,22 @@ fn block_case(c: &BlockCase, ev: &mut Ev) -> Outcome {
     let sig = block_signals(c);
     let out = hooks::wire_deconvolution(&to_array(&sig, 1.0));
     ensure!(out.len() == sig.len(), "deconv-channels", "{} output channels for {} input channels", out.len(), sig.len());
-    let max_len = sig.iter().map(|s| s.1.len()).max().unwrap_or(0);
+    // longest waveform of the contiguous block (on the ring) each wire belongs to
+    let len_of: std::collections::HashMap<usize, usize> = sig.iter().map(|s| (s.0, s.1.len())).collect();
+    let block_max = |w: usize| -> usize {
+        let mut m = len_of[&w];
+        let mut k = (w + 1) % 256;
+        while k != w && len_of.contains_key(&k) {
+            m = m.max(len_of[&k]);
+            k = (k + 1) % 256;
+        }
+        let mut k = (w + 255) % 256;
+        while k != w && len_of.contains_key(&k) {
+            m = m.max(len_of[&k]);
+            k = (k + 255) % 256;
+        }
+        m
+    };
     let mut wires: Vec<usize> = out.iter().map(|o| o.0).collect();
     wires.sort_unstable();
     let mut want: Vec<usize> = sig.iter().map(|s| s.0).collect();
@@ -256,7 +287,7 @@ fn block_case(c: &BlockCase, ev: &mut Ev) -> Outcome {
     ensure!(wires == want, "deconv-channels", "output channels {wires:?} != input channels {want:?}");
     for (w, o) in &out {
         // the block is solved on a common time axis: one output sample per sample of the longest waveform
-        sane(o, max_len, &format!("wire {w} of block ({}, {})", c.start, c.len))?;
+        sane(o, block_max(*w), &format!("wire {w} of block ({}, {})", c.start, c.len))?;
     }
     let f = 2f64.powi(c.scale_exp as i32);
     let outs = hooks::wire_deconvolution(&to_array(&sig, f));
@@ -265,7 +296,10 @@ fn block_case(c: &BlockCase, ev: &mut Ev) -> Outcome {
         ensure!(w == w2 && bits(&scaled) == bits(b), "wire-deconv-not-scale-covariant", "block ({}, {}): scaling by 2^{} does not scale wire {w} exactly", c.start, c.len, c.scale_exp);
     }
     ev.nontrivial(fingerprint(&format!("{c:?}")));
-    ev.label(if (c.start as usize + c.len as usize) > 256 { "block:straddles-seam" } else { "block:inside" });
+    ev.label(if (c.start as usize + c.len as usize) > 256 { "block:straddles-seam" } else if c.start as usize + c.len as usize == 256 { "block:ends-at-wire-255" } else { "block:inside" });
+    if !c.others.is_empty() {
+        ev.label("blocks:several");
+    }
     if c.quiet != 0 {
         ev.label(if c.quiet == 1 { "block:no-pulse" } else { "block:positive-pedestal" });
     }
@@ -274,7 +308,22 @@ fn block_case(c: &BlockCase, ev: &mut Ev) -> Outcome {
 }
 
 fn block_strategy() -> impl Strategy<Value = BlockCase> {
-    (0u16..256, prop_oneof![2 => 1u16..=8, 3 => 9u16..=64, 1 => 65u16..=255, 1 => Just(256u16)], 30u16..200, any::<u64>(), 0u8..5, prop_oneof![3 => -8i8..=8, 2 => -120i8..=120], prop_oneof![10 => Just(0u8), 1 => Just(1u8), 1 => Just(2u8)]).prop_map(|(start, len, bins, seed, noise_kind, scale_exp, quiet)| BlockCase { start, len, bins, seed, noise_kind, scale_exp, quiet })
+    (0u16..256, prop_oneof![2 => 1u16..=8, 3 => 9u16..=64, 1 => 65u16..=255, 1 => Just(256u16)], 30u16..200, any::<u64>(), 0u8..5, prop_oneof![3 => -8i8..=8, 2 => -120i8..=120], prop_oneof![10 => Just(0u8), 1 => Just(1u8), 1 => Just(2u8)]).prop_map(|(start, len, bins, seed, noise_kind, scale_exp, quiet)| BlockCase { start, len, bins, seed, noise_kind, scale_exp, quiet, others: vec![] })
+}
+
+/// Several blocks in one event; one case in three has its first block end
+/// exactly at wire 255 (with wire 0 free or taken by another block).
+fn blocks_strategy() -> impl Strategy<Value = BlockCase> {
+    (block_strategy(), prop_oneof![2 => Just(0u8), 1 => Just(1u8), 1 => Just(2u8)], proptest::collection::vec((0u16..256, prop_oneof![3 => 1u16..=8, 2 => 9u16..=40]), 1..=3)).prop_map(|(mut c, edge, others)| {
+        c.len = c.len.min(60);
+        match edge {
+            1 => c.start = 256 - c.len,
+            2 => c.start = 0,
+            _ => {}
+        }
+        c.others = others;
+        c
+    })
 }
 
 // ------------------------------------------------------------------ isolated pulse
@@ -398,6 +447,7 @@ fn run(r: &Run) {
     let t = r.tier;
     r.prop("pad_waveforms", t.pick(200_000, 30_000_000), wave_case, pad_case);
     r.prop("wire_blocks", t.pick(3_000, 600_000), block_strategy, block_case);
+    r.prop("wire_blocks_several", t.pick(2_000, 200_000), blocks_strategy, block_case);
     let seed = r.seed;
     r.enumerate("isolated_wire_pulse", t.pick(256 * 40, 256 * 2000), move |i, ev| pulse(i, seed, ev));
     r.prop("whole_event_scale", t.pick(1_500, 200_000), || (hit_event(8), 0u8..3).prop_map(|(mut hits, factor_exp)| {
@@ -415,7 +465,7 @@ fn run(r: &Run) {
 fn replay(_r: &Run, check: &str, case: &Value) -> Option<Outcome> {
     Some(match check {
         "pad_waveforms" => replay_case(case, pad_case),
-        "wire_blocks" => replay_case(case, block_case),
+        "wire_blocks" | "wire_blocks_several" => replay_case(case, block_case),
         "whole_event_scale" => replay_case(case, scale_event),
         "whole_event_scale_signals" => replay_case(case, scale_signals),
         _ => return None,
